@@ -99,7 +99,41 @@ def run_harness(ctx, tier=None, only=None):
                 ctx.notes["volume_rounds"] = o["volume_stats"]   # 1..N with N = 2000 / 200000, really parallel workers, judged in Go
                 continue
             cases.append(o)
+    if only is None:
+        cases += race_pass(ctx, d, env)
     return cases
+
+
+def race_pass(ctx, d, env):
+    """a few volume rounds under the race detector (two workers meeting on a shared variable need not collide to be seen);
+    a reported race arrives as a volume case without a result"""
+    exe = os.path.join(d, "c10_race.test")
+    if not os.path.exists(exe):
+        rc, out = vlib.go_build(d, ".", exe, test=True, race=True)
+        if rc != 0:
+            ctx.notes["race_pass"] = "race build failed: " + out[-300:]
+            return []
+    env = dict(env, VERIF_RACE_PASS="1", GORACE="halt_on_error=1")
+    outp = env["VERIF_OUT"]
+    if os.path.exists(outp):
+        os.remove(outp)
+    rc, so, se = vlib.sh2([exe, "-test.run", "^TestC10$", "-test.timeout", "10m"], cwd=d, env=env, timeout=700)
+    found = []
+    if os.path.exists(outp):
+        with open(outp) as f:
+            for l in f:
+                if l.strip():
+                    o = json.loads(l)
+                    if "race_stats" in o:
+                        ctx.notes["race_pass"] = o["race_stats"]
+                    elif "volume_stats" not in o:
+                        found.append(o)
+    if rc != 0:
+        msg = "\n".join(x for x in (so + se).split("\n") if "DATA RACE" in x or "panic" in x or "fatal" in x)[:300] or (so + se)[-300:]
+        ctx.notes["race_pass"] = "process ended with exit %d: %s" % (rc, msg)
+        found.append({"monoid": 0, "par": 2, "mode": 3, "input": [], "n": 2000, "observed": [], "closed": False,
+                      "pfold": [2001000], "pclosed": True, "loop": 2001000, "note": "under the race detector: " + msg})
+    return found
 
 
 def run_impl(ctx, tier=None):
@@ -127,6 +161,7 @@ def describe(c):
     return {"call": "fork.Fold(ctx, par=%d, in, m) with m = %s; input fed as: %s" % (c["par"], MONOIDS[c["monoid"]], MODES[c["mode"]]),
             "input": ("1..%d" % c["n"]) if c.get("n") else c["input"],
             "observed": {"fork.Fold delivered": c["observed"], "then closed": c["closed"], "pipe.Fold delivered": c["pfold"]},
+            "note": c.get("note"),
             "required": "exactly one value = left fold of the input = %s (plain loop in Go), then the channel closes" % c["loop"]}
 
 
